@@ -224,6 +224,7 @@ pub fn sample(ch: &mut Choices, re: &crate::genr::lexspec::Re, out: &mut String)
             "\\x7A" => 'z',
             "\\xAB" => '\u{ab}',
             "\\uffe9" => '\u{ffe9}',
+            "$" if ch.chance(1, 2) => '\n',
             _ => return,
         }),
         Re::SlashB => {
